@@ -120,8 +120,22 @@ def module_state(repo, chk):
             n += 1
             chk.ob('GLOBALS', fi, node, 'no function on the page-processing call graph writes process-wide state', False,
                    what + ': state that outlives the page and is shared by every page processed afterwards', construct='global write in %s: %s' % (fi.name, what))
+    # objects built while a page is processed (lines, regions, hypotheses ...) come from constructors all over the
+    # library; short-lived classes are not followed by the call graph above, so the library is scanned as a whole.
+    # Definitions nested in a function are re-created by every call of it: their defaults do not outlive that call.
+    for q, fi in sorted(repo.funcs.items()):
+        if q in seen or not q.startswith('pero_ocr.'):
+            continue
+        tail = q.split(':')[1].split('.')
+        if any((q.split(':')[0] + ':' + '.'.join(tail[:k])) in repo.funcs for k in range(1, len(tail))):
+            continue
+        seen.add(q)
+        for node, what in global_writes(repo, fi):
+            n += 1
+            chk.ob('GLOBALS', fi, node, 'no library function writes process-wide state', False,
+                   what + ': state that outlives the page and is shared by every page processed afterwards', construct='global write in %s: %s' % (fi.name, what))
     entry = repo.funcs[ra.entry.qual]
-    chk.ob('GLOBALS', entry, entry.node, '%d functions reachable from PageParser.process_page write no module-level object, class attribute, function attribute or mutable default argument' % len(seen),
+    chk.ob('GLOBALS', entry, entry.node, '%d functions (everything reachable from PageParser.process_page, and every library function) write no module-level object, class attribute, function attribute or mutable default argument' % len(seen),
            n == 0, construct='global writes')
     import ast as _ast
     sample = repo.funcs.get(PP + ':get_prob')
